@@ -119,6 +119,30 @@ def run(ctx):
         if e["stage"] in ("emit", "build"):
             ctx.fail(e["symptom"], {"src": c["decls"].replace("{N}", ""), "diagnostic": e["detail"]},
                      "accepted by the checker but the generated project does not build", tags=c["tags"])
+    # ---------------------------------------------------------------- whatever the checker accepts must generate: the ill-typed programs of
+    # spec/GenHole.tla (an offending expression in every expression x statement context). On a correct checker none of them gets
+    # past `--check`; one that does (a hole in the checker's traversal) must still not end in a code-generation or rustc error.
+    from lib import holes
+    gh = common.tlc(ctx, "GenHole", cfg="GenHole_1", workers=6, timeout=1200)
+    common.require_tlc_ok(ctx, gh, "GenHole")
+    hrows = [r for r in gh["cases"]["CASE"] if r["off"] != "twin"]
+    if ctx.quick:
+        hrows = rnd.sample(hrows, min(len(hrows), 3000))
+    hprogs = [holes.program(r)[0] for r in hrows]
+    with ctx.timed("holes_emit"):
+        houts = common.replay_batch([{"op": "emit", "src": p} for p in hprogs], timeout=3000)
+    n_hole_accepted = 0
+    for r, src, o in zip(hrows, hprogs, houts):
+        ob = o.get("obs", {})
+        if "crash" in o or "panic" in ob or ob.get("ok") or ob.get("stage") in ("lex", "parse", "check"):
+            continue            # rejected by the checker (the normal case), or generated fine
+        n_hole_accepted += 1
+        ctx.fail("hole:accepted-by-the-checker-but-code-generation-fails:" + str(ob.get("stage")),
+                 {"src": src, "offender": r["off"], "msg": str(ob.get("msg"))[:400]},
+                 "the checker accepts an ill-typed program and the user meets the error in code generation instead",
+                 tags=["off:" + r["off"], "expr-ctx:" + r["inner"]])
+    stats["holes_checked"] = len(hrows)
+    stats["holes_accepted_and_failing"] = n_hole_accepted
     # ---------------------------------------------------------------- corpus: the repository's own single-file programs
     files = sorted(glob.glob(os.path.join(common.VERIF, "corpus", "repo", "**", "*.incn"), recursive=True))
     files = [f for f in files if "/invalid/" not in f]
